@@ -280,7 +280,7 @@ def run_scenarios(scenarios, handler, workers=None, timeout_s=60):
     calling thread as results arrive (so handlers need no locking)."""
     b = nsim_bin()
     workers = workers or util.NCPU
-    qin, qout = queue.Queue(), queue.Queue()
+    qin, qout = queue.Queue(), queue.Queue(maxsize=4 * workers)     # (workers wait when the judge is slower: memory stays bounded)
     for s in scenarios:
         qin.put(s)
     n = qin.qsize()
